@@ -17,16 +17,16 @@
 (***************************************************************************)
 EXTENDS Naturals, Sequences, FiniteSets, TLC
 
-Refs == {"override", "extends", "include", "env_file", "env_file_optional", "label_file"}
+Refs == {"override", "extends", "include", "include_env_file", "env_file", "env_file_optional", "label_file"}
 Switches == {"SkipValidation", "SkipInterpolation", "SkipNormalization", "NoResolvePaths", "SkipConsistencyCheck",
              "SkipExtends", "SkipInclude", "SkipResolveEnvironment", "SkipDefaultValues"}
 Phases == <<"read-main", "read-override", "decode", "interpolate", "extends", "include", "merge", "schema", "canonical",
             "defaults", "validate", "resolve-paths", "normalize", "bind", "consistency", "environment", "labels", "done">>
 
 \* the phase that reads a reference, and the switch that turns it off ("" = cannot be switched off)
-ReaderOf(r) == CASE r = "override" -> "read-override" [] r = "extends" -> "extends" [] r = "include" -> "include"
+ReaderOf(r) == CASE r = "override" -> "read-override" [] r = "extends" -> "extends" [] r \in {"include", "include_env_file"} -> "include"
                  [] r \in {"env_file", "env_file_optional"} -> "environment" [] r = "label_file" -> "labels"
-OffSwitch(r) == CASE r = "extends" -> "SkipExtends" [] r = "include" -> "SkipInclude"
+OffSwitch(r) == CASE r = "extends" -> "SkipExtends" [] r \in {"include", "include_env_file"} -> "SkipInclude"
                   [] r \in {"env_file", "env_file_optional"} -> "SkipResolveEnvironment" [] OTHER -> ""
 
 VARIABLES absent,   \* references whose file is missing
